@@ -146,13 +146,13 @@ def main(argv: List[str]) -> int:
         raise core.Machinery('MC_Invalid: %d histories for %d states' % (len(hists), res.distinct))
     rep.exhaustive = True
     flavours = [p[1] for p in res.prints if p and p[0] == 'F'][0]
-    if len(flavours) != 192 or PLAIN not in flavours:
+    if len(flavours) != 256 or PLAIN not in flavours:
         raise core.Machinery('MC_Invalid: flavours %r' % (flavours,))
     others = [f for f in flavours if f != PLAIN]
     items = [{'tid': i + 1, 'hist': h, 'fl': PLAIN} for i, h in enumerate(hists)]
     # every history in the plain universe; in the other flavours every history up to depth 2 (quick: plus each longer one in
     # one flavour, by rotation; thorough: every history up to depth 3 in every flavour)
-    # every history in the plain universe; in the other 95 flavours: every history up to depth 1 (quick) / 2 (thorough), eight
+    # every history in the plain universe; in the other 255 flavours: every history up to depth 1 (quick) / 2 (thorough), eight
     # flavours by rotation one level deeper, one flavour beyond
     full = 1 if core.tier() == 'quick' else 2
     for i, h in enumerate(hists):
